@@ -161,6 +161,47 @@ def namemode(case):
                 ctx.check_concrete(ok, 'member=standalone', {'mode': 'name', 'member': i, 'task': n,
                                                              'key': m.tasks[n].name_for_persistence,
                                                              'standalone_key': standalone[i].tasks[n].name_for_persistence})
+        # config files with the same base name in different directories are different configs
+        import json
+        import os
+        import tempfile
+        import shutil
+        import ref.family_gen as FG
+        for n_, c_ in world.classes.items():
+            setattr(FG, n_, c_)
+        d = tempfile.mkdtemp(dir=_rp.MODE['tmp']) if _rp.MODE['replay'] else tempfile.mkdtemp(prefix='c13cfg')
+        try:
+            paths = []
+            for sub, xv in (('a', 10), ('b', 20)):
+                os.makedirs(os.path.join(d, sub))
+                pth = os.path.join(d, sub, 'settings.json')
+                with open(pth, 'w') as f:
+                    json.dump({'tasks': [f'ref.family_gen.{n_}' for n_ in world.classes], 'x': xv}, f)
+                paths.append(pth)
+            fcfgs = [Config(fs.path('/data2'), p_, name=f'file{i}') for i, p_ in enumerate(paths)]
+            try:
+                mcf = MultiChain(fcfgs, parameter_mode=False)
+                vals = [family.norm_input(mcf[f'file{i}'].tasks['a'].value) for i in range(2)]
+                err = None
+            except Exception as e:
+                vals, err = None, f'{type(e).__name__}: {e}'[:150]
+            exp = [{'t': 'a', 'p': {'x': 10}, 'i': {}}, {'t': 'a', 'p': {'x': 20}, 'i': {}}]
+            # (in name mode both write to <task>/<name>: distinct names file0 / file1 keep them apart)
+            ctx.check_concrete(vals == exp, 'member=standalone', {'mode': 'name', 'what': 'same-named config files', 'got': repr(vals)[:200], 'error': err})
+            # from_dir builds one chain per config file, whatever its format
+            os.makedirs(os.path.join(d, 'dir'))
+            with open(os.path.join(d, 'dir', 'one.json'), 'w') as f:
+                json.dump({'tasks': [f'ref.family_gen.{n_}' for n_ in world.classes], 'x': 1}, f)
+            with open(os.path.join(d, 'dir', 'two.yaml'), 'w') as f:
+                import yaml
+                yaml.safe_dump({'tasks': [f'ref.family_gen.{n_}' for n_ in world.classes], 'x': 2}, f)
+            import pathlib
+            mcd = MultiChain.from_dir(fs.path('/data3'), pathlib.Path(os.path.join(d, 'dir')))
+            ctx.check_concrete(sorted(mcd.keys()) == ['one', 'two'], 'member=standalone',
+                               {'what': 'MultiChain.from_dir over a json and a yaml config', 'chains': sorted(mcd.keys())})
+        finally:
+            if not _rp.MODE['replay']:
+                shutil.rmtree(d, ignore_errors=True)
         # a result stored by the standalone chain is found by the member (same location)
         standalone[0].tasks['b'].value
         del family.RUNLOG[:]
